@@ -236,6 +236,13 @@ def check_config(config: dict) -> None:
         raise TOMLConfigError(
             f"Interface_cap {intf_cap} < interface[-2]={intf[-2]}"
         )
+    if intf_cap is not False:
+        for i, move in enumerate(sh_moves[1:n_ens]):
+            if move == "wf" and intf_cap <= intf[i]:
+                raise TOMLConfigError(
+                    f"Interface_cap {intf_cap} <= interface[{i}]={intf[i]}:"
+                    + f" no room for wire fencing in ensemble {i + 1:03d}!"
+                )
 
     # engine checks
     unique_engines = []
